@@ -174,6 +174,7 @@ class Sched:
         sched = self
 
         def boot():
+            _TLS.sched = sched
             ts.sem.acquire()
             try:
                 if sched.aborted is not None:
@@ -227,11 +228,15 @@ class Sched:
         return [(t.name,) + t.error[:2] for t in self.threads if t.error]
 
 
-SCHED = None  # the scheduler of the execution in progress
+SCHED = None  # the scheduler of the execution in progress (main thread's view)
+_TLS = _threading.local()
 
 
 def cur():
-    return SCHED
+    """The scheduler the calling thread belongs to. A straggler thread of a finished execution keeps talking to its own
+    (aborted) scheduler and unwinds, instead of disturbing the next execution."""
+    s = getattr(_TLS, "sched", None)
+    return s if s is not None else SCHED
 
 
 # ---------------------------------------------------------------- scheduler-aware primitives
@@ -251,7 +256,7 @@ class VThread:
             self._target(*self._args, **self._kwargs)
 
     def start(self):
-        SCHED.spawn(self)
+        cur().spawn(self)
 
     def is_alive(self):
         return self._ts is not None and self._ts.state != "done"
@@ -262,7 +267,7 @@ class VThread:
         if self._ts is None:
             return
         ts = self._ts
-        SCHED.block(lambda: ts.state == "done", timeout, "join:" + self.name)
+        cur().block(lambda: ts.state == "done", timeout, "join:" + self.name)
 
     @property
     def ident(self):
@@ -283,7 +288,7 @@ class VTimer(VThread):
         self._cancelled = True
 
     def run(self):
-        SCHED.block(lambda: self._cancelled, self.interval, "timer:" + self.name)
+        cur().block(lambda: self._cancelled, self.interval, "timer:" + self.name)
         if not self._cancelled:
             self.function(*self.fargs, **self.fkwargs)
 
@@ -299,13 +304,13 @@ class VEvent:
 
     def set(self):
         self._flag = True
-        SCHED.point("event.set")
+        cur().point("event.set")
 
     def clear(self):
         self._flag = False
 
     def wait(self, timeout=None):
-        return SCHED.block(lambda: self._flag, timeout, "event.wait")
+        return cur().block(lambda: self._flag, timeout, "event.wait")
 
 
 class VPriorityQueue:
@@ -320,14 +325,14 @@ class VPriorityQueue:
 
     def put(self, item, block=True, timeout=None):
         self._put(item)
-        SCHED.point("queue.put")
+        cur().point("queue.put")
 
     put_nowait = put
 
     def get(self, block=True, timeout=None):
         if not block:
             timeout = 0
-        ok = SCHED.block(lambda: len(self.queue) > 0, timeout, "queue.get")
+        ok = cur().block(lambda: len(self.queue) > 0, timeout, "queue.get")
         if not ok:
             raise _queue.Empty()
         return self._get()
@@ -356,13 +361,14 @@ class VQueue(VPriorityQueue):
 
 
 def vsleep(t):
-    SCHED.block(lambda: False, t, "sleep")
+    cur().block(lambda: False, t, "sleep")
 
 
 def vclock():
     # like a real perf_counter, two successive readings never return the same value (the library divides by elapsed times)
-    SCHED.reads += 1
-    return SCHED.clock + SCHED.reads * 1e-9
+    c = cur()
+    c.reads += 1
+    return c.clock + c.reads * 1e-9
 
 
 class _ThreadView:
@@ -412,19 +418,19 @@ class VThreadingModule(metaclass=_VThreadingMeta):
 
     @staticmethod
     def current_thread():
-        return _view(SCHED.current)
+        return _view(cur().current)
 
     @staticmethod
     def main_thread():
-        return _view(SCHED.threads[0])
+        return _view(cur().threads[0])
 
     @staticmethod
     def get_ident():
-        return SCHED.current.id
+        return cur().current.id
 
     @staticmethod
     def enumerate():
-        return [_view(t) for t in SCHED.threads if t.state != "done"]
+        return [_view(t) for t in cur().threads if t.state != "done"]
 
 
 class VTimeModule:
@@ -471,6 +477,7 @@ def execute(scenario, choices, **kw):
     global SCHED
     sched = Sched(choices, **kw)
     SCHED = sched
+    _TLS.sched = sched
     result, crash = None, None
     if sched.trace_lines:
         sys.settrace(sched._tracer)
